@@ -726,7 +726,8 @@ class GCodeBuilder(GCodeCore):
             raise ValueError(f"Not a valid halt mode: {mode}.")
 
         mode = HaltMode(mode)
-        self.state._set_halt_mode(mode)
+        self.state._ensure_tool_is_inactive("Halt with tool on.")
+        self.state._ensure_coolant_is_inactive("Halt with coolant on.")
 
         # Track temperatures if provided
 
@@ -744,6 +745,7 @@ class GCodeBuilder(GCodeCore):
         # Output the statement
 
         statement = self._get_statement(mode, kwargs)
+        self.state._set_halt_mode(mode)
         self.write(statement)
 
     def wait(self) -> None:
